@@ -4,6 +4,7 @@ area `cmapx`).  Panics are outcomes (checked indexing).  Core-only.
 -/
 import SfntV.Model.Cmap12
 import SfntV.Model.Cmap06
+import SfntV.Model.Cmap4
 import SfntV.Generated.Cmapx
 
 namespace SfntV.CmapTable
@@ -221,23 +222,37 @@ deriving Repr, DecidableEq
 
 def Sub.lookup : Sub → Nat → Nat
   | .f0 d, c => lookup0 d c
-  | .f4 w, c => lookup16 w c
+  | .f4 w, c => if c < 65536 then Cmap4.alistGet w c else 0
   | .f6 w, c => lookup16 w c
   | .f12 gs, c => lookupKV (expand gs) c
 
-def macRoman (code : Nat) : Nat :=
-  let c := code % 256
-  if c < 128 then c else Gen.cmapxMacDec.getD (c - 128) 0
+/-- `macRoman` of Table.Get: `mac.DecodeOne(byte(code))` — codes are truncated to their low byte -/
+def macRoman (code : Nat) : Nat := Gen.macRomanTable.getD (code % 256) 0
+
+/-- `decodeFormat4(data, code2rune)` from its identity-mapping model `dec4id` (Model/Cmap4.lean records the
+writes `cmap[uint16(idx)] = c` in loop order with `idx < 65536`): with a non-nil `code2rune` the same
+checks run and every write goes to key `uint16(code2rune(idx))` instead. -/
+def dec4Of (dec4id : Bytes → Option (List (Nat × Nat))) (d : Bytes) (mac : Bool) :
+    Outcome (List (Nat × Nat)) :=
+  match dec4id d with
+  | none => .err "malformed-subtable"
+  | some ws => .ok (if mac then ws.map (fun w => (macRoman w.1 % 65536, w.2)) else ws)
 
 /-- `decoders[format](data, code2rune)`; `dec4` stands for `decodeFormat4` (modelled in
 Model/Cmap4.lean); a format without an entry in `decoders` is a call of a nil function. -/
 def decodeSub (dec4 : Bytes → Bool → Outcome (List (Nat × Nat))) (format : Nat) (d : Bytes) (mac : Bool) :
     Outcome Sub :=
   if format = 0 then
-    (match decode0 d with
-     | .ok x => .ok (.f0 x)
-     | .err e => .err e
-     | .panic s => .panic s)
+    (if mac then
+      (match decode0c2r macRoman d with
+       | .ok w => .ok (.f6 w)
+       | .err e => .err e
+       | .panic s => .panic s)
+     else
+      (match decode0 d with
+       | .ok x => .ok (.f0 x)
+       | .err e => .err e
+       | .panic s => .panic s))
   else if format = 4 then
     (match dec4 d mac with
      | .ok x => .ok (.f4 x)
